@@ -14,7 +14,7 @@ from vf.sim.scenario import Sim
 LEVEL = "exploration"
 RULE = ("scripts over 1-3 concurrent send_messages_await_response_complex calls (own or shared response types out of 3, timeouts 0.5/1/2 s, "
         "harness-owned accept/stop predicates keyed by bits in the message) with events {start call i (+ device replies emitted the moment the "
-        "request is received = readable in the very next loop turn), arrival(type, accept bits, stop bits), cancel call i, close(eof|garbage|force|peer DisconnectRequest; garbage and peer optionally in the same chunk as the answers before them)} "
+        "request is received = readable in the very next loop turn), arrival(type, accept bits, stop bits), cancel call i, toggle the library's debug flag, close(eof|garbage|force|peer DisconnectRequest; garbage and peer optionally in the same chunk as the answers before them)} "
         "and gaps {same instant, same chunk as the previous arrival (one TCP segment), +1 ms, exactly at call j's timeout instant}; instant replies optionally coalesced into one chunk; seeded random scripts, all orderings of small event sets at thorough; "
         "plus the public wrappers. Oracle: per-call sequential model over the recorded arrival history (process_packet order), exact timeout "
         "instant, connection's error at close, cancellation; leftovers after every ending: predicates never invoked after the call returned, "
@@ -138,6 +138,9 @@ def run_script(script: dict[str, Any]) -> dict[str, Any]:
                 chunk.append(("msg", dev.proto.id_of(TYPES[ty]), msg.SerializeToString()))
             elif kind == "cancel":
                 sim.at(t, functools.partial(cancel_call, ev[2]))
+            elif kind == "debug":
+                # the application toggles the library's debug logging while calls are outstanding (Home Assistant does on a log-level change)
+                sim.at(t, functools.partial(cli.set_debug, bool(ev[2])))
             elif kind == "close":
                 cause = ev[2]
                 if cause == "eof":
@@ -319,8 +322,10 @@ def gen_script(rng: Any, framing: str) -> dict[str, Any]:
             if events[-1][1] == "arrive" and rng.random() < 0.4:
                 gap = "chunk"
             events.append([gap, "arrive", rng.randrange(3), rng.randrange(8), rng.randrange(8) if rng.random() < 0.45 else 0])
-        elif r < 0.9:
+        elif r < 0.87:
             events.append([gap, "cancel", rng.choice(sorted(started))])
+        elif r < 0.9:
+            events.append([gap, "debug", rng.random() < 0.7])
         else:
             cause = rng.choice(["eof", "garbage", "force", "peer", "garbage", "peer"])
             if cause in ("garbage", "peer") and events[-1][1] == "arrive" and rng.random() < 0.6:
@@ -332,7 +337,7 @@ def gen_script(rng: Any, framing: str) -> dict[str, Any]:
 def small_exhaustive() -> Any:
     """All orderings of a small event multiset after call 0 (two calls sharing a type)."""
     base_calls = [{"types": [0, 1], "timeout": 0.5, "instant": []}, {"types": [0], "timeout": 1.0, "instant": [(0, 2, 0)]}]
-    atoms = [["call", 1], ["arrive", 0, 3, 0], ["arrive", 0, 3, 1], ["arrive", 1, 1, 2], ["arrive", 0, 2, 2], ["cancel", 0], ["close", "eof"], ["close", "peer"]]
+    atoms = [["call", 1], ["arrive", 0, 3, 0], ["arrive", 0, 3, 1], ["arrive", 1, 1, 2], ["arrive", 0, 2, 2], ["cancel", 0], ["close", "eof"], ["close", "peer"], ["debug", True]]
     for k in (3, 4, 5):
         for combo in itertools.permutations(atoms, k):
             for gaps in itertools.product(("0", "ms", "chunk"), repeat=k) if k <= 3 else (itertools.product(("0", "chunk"), repeat=k) if k == 4 else [("0",) * k, ("ms",) * k, ("chunk",) * k]):
@@ -417,7 +422,7 @@ def shard(ctx: Ctx) -> None:
 
 def exhaustive(tier: str) -> Any:
     if tier == "thorough":
-        return ["all orderings of 3-5 events out of an 8-event alphabet (2 calls sharing a type), gaps {0, 1ms}^k for k<=4"]
+        return ["all orderings of 3-5 events out of a 9-event alphabet (2 calls sharing a type), gaps {0, 1ms}^k for k<=4"]
     return False
 
 
